@@ -215,6 +215,9 @@ func metaScript(s tsgen.Script) vt.Meta {
 	if s.P.RequireExplicitExec {
 		cl = append(cl, "require-explicit-exec")
 	}
+	if strings.Contains(s.Text, "exec zzprog") {
+		cl = append(cl, "installs-a-program-of-its-own")
+	}
 	nt := r.Executed >= 1 && (r.Negated > 0 || r.Guarded > 0 || (len(r.FailLines) > 0 && r.FailLines[0] > 1) || r.Verdict == "skip" || strings.Contains(s.Text, "\nstop") || strings.Contains(s.Text, "wait"))
 	return vt.Meta{NonTrivial: nt, Classes: cl}
 }
